@@ -332,7 +332,7 @@ Lemma scan_detects idxs : forall st aevs i,
 Proof.
   induction idxs as [|k ks IH]; intros st aevs i HI Hlen NL; [destruct HI|].
   simpl. destruct (pop aevs) as [ev aevs'].
-  destruct (deliver_spec ev st) as (EV & _ & _ & _). set (st1 := deliver st ev) in *.
+  destruct (deliver_np_spec ev st) as (EV & _ & _ & _). set (st1 := deliver_np st ev) in *.
   pose proof (evolves_not_live _ _ i EV NL) as NL1.
   pose proof (evolves_length _ _ EV) as L1.
   destruct (is_alive (nth k (workers st1) dummy)) as [al w'] eqn:EA.
@@ -484,3 +484,21 @@ Proof.
     destruct (tick_pending n c st1 te2 st2 e2 i I1 (ex_intro _ false X) T2) as [p Y].
     exists p. apply in_or_app; auto.
 Qed.
+
+(* ---- startup windows (non-vacuity of the DieS histories).  Worker 1 exits inside prepare_workers before the poll
+   of its startup wait: Reaped at the first boundary without any scan, slot kept, found by scan 1, replaced in tick 2 *)
+Example startup_death_replaced :
+  run (mkCfg 2 (-1)) 100 [mkTE [DieS 1] [] []; mkTE [] [] []] =
+  ([[Start 0 100; Start 1 101]; []; [Got (ReloadOne 1 false); Terminate 101; Join 101; Start 1 102]], Cont,
+   mkState [mkProc 100 Live; mkProc 102 Live] [] 0 103).
+Proof. vm_compute. reflexivity. Qed.
+(* the only worker crashes at startup, and its replacement again inside the startup window of the reload *)
+Example startup_death_of_a_replacement :
+  fst (fst (run (mkCfg 1 (-1)) 100 [mkTE [DieS 0] [] []; mkTE [] [[]; [DieS 0]] []; mkTE [] [] []])) =
+  [[Start 0 100]; []; [Got (ReloadOne 0 false); Terminate 100; Join 100; Start 0 101];
+   [Got (ReloadOne 0 false); Terminate 101; Join 101; Start 0 102]].
+Proof. vm_compute. reflexivity. Qed.
+(* no startup window inside the scan / the shutdown branch: a DieS listed there does not happen *)
+Example no_polled_death_inside_the_scan :
+  snd (run (mkCfg 1 (-1)) 100 [mkTE [] [] [[DieS 0]]]) = mkState [mkProc 100 Live] [] 0 101.
+Proof. vm_compute. reflexivity. Qed.
